@@ -88,6 +88,20 @@ class SList(object):
         self.items, self.kind = list(items), kind
 
 
+class LoopSeq(object):
+    """The strings a depth loop (``for d in range(len(funcs))``) appends to one list: ``items`` is what one iteration
+    appends (evaluated for a symbolic iteration, see TemplateEval._depth_loop); the whole list is those items for
+    d = 0, 1, ... in order -- or, with ``rev``, the reverse of that."""
+
+    def __init__(self, loop, items, rev=False):
+        self.loop, self.items, self.rev = loop, list(items), rev
+
+
+class LoopCat(object):
+    def __init__(self, seqs):
+        self.seqs = list(seqs)
+
+
 class _Return(Exception):
     pass
 
@@ -102,6 +116,14 @@ class _Resolver(ast.NodeTransformer):
             v = self.ev.env.get(node.id)
             if isinstance(v, Ex):
                 return ast.copy_location(copy.deepcopy(v.node), node)
+        return node
+
+    def visit_BinOp(self, node):
+        node = self.generic_visit(node)
+        if isinstance(node.op, ast.Add):
+            for a, b in ((node.left, node.right), (node.right, node.left)):
+                if isinstance(b, ast.Constant) and b.value == 0 and isinstance(b.value, int) and not isinstance(b.value, bool):
+                    return a
         return node
 
     def _comp(self, node):
@@ -162,6 +184,8 @@ class TemplateEval(object):
         self.notes = []
         self._done = False
         self._stop_at = None
+        self._loop_guard = None     # during the symbolic iteration of a depth loop: names the body binds / has bound so far
+        self._loop_rec = None
 
     # -- compat API -----------------------------------------------------------------------------------------
     def ev(self, e, at_line=None, depth=0):
@@ -236,6 +260,8 @@ class TemplateEval(object):
             return
         if isinstance(st, ast.Return):
             val = self.eval(st.value) if st.value is not None else Ex(ast.Constant(value=None))
+            if isinstance(val, Tmpl) and any(isinstance(p, Sym) and p.kind == 'loop' for p in val.parts):
+                val = self._nest(val, st)
             self.returns.append((st, val))
             raise _Return()
         if isinstance(st, ast.Raise):
@@ -252,10 +278,116 @@ class TemplateEval(object):
                 if it.optional_vars is not None:
                     self.bind(it.optional_vars, Ex(self.resolve(it.context_expr)))
             return self.exec_block(st.body)
+        if isinstance(st, ast.For) and self.parent is None and self._loop_rec is None:
+            return self._depth_loop(st)
         if isinstance(st, (ast.For, ast.While, ast.AsyncFor)):
             raise AnalysisError('%s: loop in a code generator (%s) -- symbolic template evaluation follows straight-line '
                                 'builders only' % (self.fi.qualname, norm(st)[:60]))
         raise AnalysisError('%s: statement outside the modelled subset of code generators: %s' % (self.fi.qualname, norm(st)[:60]))
+
+    def _depth_loop(self, st):
+        """``for d in range(len(funcs)): ...`` in place of the recursion over ``funcs[1:]``.
+
+        The loop is executed for one *symbolic* iteration in the frame of the equivalent recursive activation: inside
+        the body ``<list param>[d]`` is that activation's ``<list param>[0]`` and ``<level param> + d`` its
+        ``<level param>``.  That reading is valid when the index occurs in no other way, the indexed / shifted
+        parameters are not used otherwise in the body, no local is carried between iterations (every local the body
+        binds is bound before it is read) and the lists the body appends to start out empty.  The lists become
+        LoopSeq values; ``''.join(defs + tails[::-1])`` then is, by induction on the number of functions, the nested
+        text ``defs(0) + <the same for funcs[1:]> + tails(0)`` (see _nest)."""
+        def fail(why):
+            return AnalysisError('%s: loop in a code generator (%s) -- %s' % (self.fi.qualname, norm(st)[:50], why))
+        if st.orelse or not isinstance(st.target, ast.Name):
+            raise fail('symbolic template evaluation follows straight-line builders and depth loops only')
+        d = st.target.id
+        it = st.iter
+        ok = isinstance(it, ast.Call) and isinstance(it.func, ast.Name) and it.func.id == 'range' and len(it.args) == 1 and not it.keywords
+        ln = it.args[0] if ok else None
+        ok = ok and isinstance(ln, ast.Call) and isinstance(ln.func, ast.Name) and ln.func.id == 'len' and len(ln.args) == 1
+        seqp = norm(self.resolve(ln.args[0])) if ok else None
+        if not ok or seqp not in self.params:
+            raise fail('only "for d in range(len(<list parameter>))" can be read as the recursion over its tail')
+        for s_ in st.body:
+            for n in ast.walk(s_):
+                if isinstance(n, (ast.Break, ast.Continue, ast.Return, ast.For, ast.While, ast.Try, ast.With, ast.Yield, ast.YieldFrom,
+                                  ast.FunctionDef, ast.Lambda, ast.Global, ast.Nonlocal, ast.NamedExpr)):
+                    raise fail('the loop body is not straight-line code (%s)' % type(n).__name__)
+        par = {}
+        for s_ in st.body:
+            for p_ in ast.walk(s_):
+                for ch in ast.iter_child_nodes(p_):
+                    par[ch] = p_
+        indexed, shifted = set(), set()
+        names = [n for s_ in st.body for n in ast.walk(s_) if isinstance(n, ast.Name)]
+        for n in names:
+            if n.id != d:
+                continue
+            p_ = par.get(n)
+            if not isinstance(n.ctx, ast.Load):
+                raise fail('the loop index is re-bound in the body')
+            if isinstance(p_, ast.Subscript) and p_.slice is n and isinstance(p_.value, ast.Name) and p_.value.id in self.params and \
+                    isinstance(p_.ctx, ast.Load):
+                indexed.add(p_.value.id)
+            elif isinstance(p_, ast.BinOp) and isinstance(p_.op, ast.Add) and \
+                    isinstance(p_.right if p_.left is n else p_.left, ast.Name) and (p_.right if p_.left is n else p_.left).id in self.params:
+                shifted.add((p_.right if p_.left is n else p_.left).id)
+            else:
+                raise fail('the loop index is used other than as <list parameter>[d] or <level parameter> + d')
+        if seqp not in indexed or (indexed & shifted):
+            raise fail('the loop does not index the list it is bounded by')
+        for n in names:
+            if n.id in indexed or n.id in shifted:
+                p_ = par.get(n)
+                good = (n.id in indexed and isinstance(p_, ast.Subscript) and p_.value is n and isinstance(p_.slice, ast.Name) and p_.slice.id == d) or \
+                    (n.id in shifted and isinstance(p_, ast.BinOp) and isinstance(p_.op, ast.Add) and
+                     isinstance(p_.right if p_.left is n else p_.left, ast.Name) and (p_.right if p_.left is n else p_.left).id == d)
+                if not good or not isinstance(n.ctx, ast.Load):
+                    raise fail('parameter %s is used in the body other than through the loop index' % n.id)
+        for p_ in indexed | shifted:
+            v = self.env.get(p_)
+            if not (isinstance(v, Ex) and isinstance(v.node, ast.Name) and v.node.id == p_):
+                raise fail('parameter %s is re-bound before the loop' % p_)
+        lists = dict((k, v) for k, v in self.env.items() if isinstance(v, SList) and v.kind == 'list')
+        stored = set(n.id for n in names if isinstance(n.ctx, (ast.Store, ast.Del)))
+        if stored & set(self.params):
+            raise fail('the body re-binds a parameter')
+        before = dict((k, len(v.items)) for k, v in lists.items())
+        self._loop_guard = {'stored': stored, 'assigned': set()}
+        self.env[d] = Ex(ast.Constant(value=0))
+        try:
+            self.exec_block(st.body)
+        finally:
+            self._loop_guard = None
+        self.env[d] = Ex(ast.Name(id='<last %s>' % d, ctx=ast.Load()))
+        for k_ in stored:
+            self.env[k_] = Ex(ast.Name(id='<%s of the last iteration>' % k_, ctx=ast.Load()))
+        for k, v in lists.items():
+            if self.env.get(k) is not v:
+                raise fail('list %s is re-bound in the body' % k)
+            if len(v.items) > before[k]:
+                if before[k]:
+                    raise fail('list %s is not empty when the loop starts' % k)
+                self.env[k] = LoopSeq(st, v.items)
+        ps = self.fi.params()
+        argmap = dict((p_, '%s[1:]' % p_ if p_ in indexed else ('%s + 1' % p_ if p_ in shifted else p_)) for p_ in ps)
+        self.events.append({'kind': 'rec', 'node': st, 'argmap': argmap, 'owner': self.fi.qualname})
+        self._loop_rec = Sym('rec', call=st, argmap=argmap)
+
+    def _nest(self, val, st):
+        """``''.join(defs + tails[::-1])`` over the LoopSeqs of one depth loop -> defs(0) + <rec> + reversed(tails(0))."""
+        loops = [p for p in val.parts if isinstance(p, Sym) and p.kind == 'loop']
+        ok = len(val.parts) == 2 and len(loops) == 2 and not loops[0].seq.rev and loops[1].seq.rev and \
+            loops[0].seq.loop is loops[1].seq.loop and self._loop_rec is not None and loops[0].seq is not loops[1].seq
+        if not ok:
+            raise AnalysisError('%s: the strings built by the depth loop are not assembled as <heads in order> + <tails reversed> '
+                                '(the nested form of the recursive generator)' % self.fi.qualname)
+        out = []
+        for x in loops[0].seq.items:
+            out.extend(self.to_parts(x))
+        out.append(self._loop_rec)
+        for x in reversed(loops[1].seq.items):
+            out.extend(self.to_parts(x))
+        return Tmpl(out)
 
     def _terminates(self, stmts):
         return bool(stmts) and isinstance(stmts[-1], (ast.Return, ast.Raise))
@@ -358,6 +490,8 @@ class TemplateEval(object):
     def bind(self, target, val):
         if isinstance(target, ast.Name):
             self.env[target.id] = val
+            if self._loop_guard is not None:
+                self._loop_guard['assigned'].add(target.id)
             return
         if isinstance(target, (ast.Tuple, ast.List)):
             if isinstance(val, SList) and len(val.items) == len(target.elts) and not any(isinstance(t, ast.Starred) for t in target.elts):
@@ -414,6 +548,10 @@ class TemplateEval(object):
         if isinstance(e, ast.Name):
             if e.id in self.comp_env:
                 return self.comp_env[e.id]
+            g = self.root._loop_guard
+            if g is not None and e.id in g['stored'] and e.id not in g['assigned']:
+                raise AnalysisError('%s: loop in a code generator: local %s is carried from one iteration to the next'
+                                    % (self.root.fi.qualname, e.id))
             if e.id in self.env:
                 return self.env[e.id]
             try:
@@ -448,6 +586,12 @@ class TemplateEval(object):
                     return v.items[idx.value]
             if isinstance(v, SDict) and isinstance(idx, ast.Constant) and idx.value in v.items:
                 return v.items[idx.value]
+            if isinstance(v, LoopSeq) and isinstance(idx, ast.Slice) and idx.lower is None and idx.upper is None:
+                if idx.step is None:
+                    return LoopSeq(v.loop, v.items, v.rev)
+                if isinstance(idx.step, ast.UnaryOp) and isinstance(idx.step.op, ast.USub) and isinstance(idx.step.operand, ast.Constant) \
+                        and idx.step.operand.value == 1:
+                    return LoopSeq(v.loop, v.items, not v.rev)
             if isinstance(v, SList) and isinstance(idx, ast.Slice) and idx.lower is None and idx.upper is None:
                 if idx.step is None:
                     return SList(v.items, v.kind)
@@ -495,6 +639,8 @@ class TemplateEval(object):
             l, r = self.eval(e.left), self.eval(e.right)
             if isinstance(l, SList) and isinstance(r, SList) and l.kind == r.kind:
                 return SList(l.items + r.items, l.kind)
+            if isinstance(l, (LoopSeq, LoopCat)) and isinstance(r, (LoopSeq, LoopCat)):
+                return LoopCat((l.seqs if isinstance(l, LoopCat) else [l]) + (r.seqs if isinstance(r, LoopCat) else [r]))
             if self.is_stringy(l) or self.is_stringy(r):
                 return Tmpl(self.to_parts(l) + self.to_parts(r))
             return Ex(self.resolve(e))
@@ -678,6 +824,8 @@ class TemplateEval(object):
                     return SList(v.items, 'list' if f.id == 'list' else 'tuple')
                 if isinstance(v, SList) and f.id == 'reversed':
                     return SList(list(reversed(v.items)), v.kind)
+                if isinstance(v, LoopSeq) and f.id in ('list', 'tuple', 'iter', 'reversed'):
+                    return LoopSeq(v.loop, v.items, (not v.rev) if f.id == 'reversed' else v.rev)
                 if isinstance(v, Ex):
                     return self.as_coll(Ex(self.resolve(e)))
                 return Ex(self.resolve(e))
@@ -771,6 +919,10 @@ class TemplateEval(object):
 
     def _join(self, sep, arg, call):
         v = self.eval(arg)
+        if isinstance(v, (LoopSeq, LoopCat)):
+            if sep != '':
+                raise AnalysisError('%s: loop-built strings joined with a separator' % self.fi.qualname)
+            return Tmpl([Sym('loop', seq=q) for q in (v.seqs if isinstance(v, LoopCat) else [v])])
         if isinstance(v, SList):
             out = []
             for i, x in enumerate(v.items):
